@@ -1257,6 +1257,8 @@ def main(outfile):
     py2lean_cblocks.main_cblocks(os.path.join(os.path.dirname(outfile), 'TranslatedCBlocks.lean'), sys.modules[__name__])
     import py2lean_counter                                       # separate module: Counter.__init__ and its class-level aliases (C20)
     py2lean_counter.main_counter(os.path.join(os.path.dirname(outfile), 'TranslatedCounter.lean'), sys.modules[__name__])
+    import py2lean_asyncinit                                     # separate module: async-init add-on, InitAsync, ValuePoll, small routines (C05)
+    py2lean_asyncinit.main_asyncinit(os.path.join(os.path.dirname(outfile), 'TranslatedAsyncInit.lean'), sys.modules[__name__])
 
 if __name__ == '__main__':
     main(sys.argv[1])
